@@ -27,7 +27,7 @@
    Assumptions, and vm_compute examples. *)
 Require Import VV.Conc VV.ConcProofs VV.ConcCodec VV.ConcCodec2 VV.ConcArray.
 Require Import VV.ConcArray2Group VV.ConcArray2Pfor VV.ConcArray2Bp128 VV.ConcArray2Float VV.ConcArray2Adaptive.
-Require Import VV.ConcPacked VV.ConcPackedBits.
+Require Import VV.ConcPacked VV.ConcPackedBits VV.ConcArray2Examples.
 Require Import VV.Base VV.Group VV.PFOR VV.BP128 VV.Float VV.Adaptive VV.Packed VV.PackedProofs VV.Bitstream.
 From Coq Require Import List NArith ZArith.
 Import ListNotations.
@@ -947,3 +947,48 @@ Example C17_bitstream_set_example :
   match bs_set 8 64 [255; 255; 255; 255; 255] 4 8 171 with
   | Some s => bs_set 8 64 s 20 3 5 | None => None end = Some [250; 191; 251; 255; 255].
 Proof. vm_compute. repeat split; reflexivity. Qed.
+
+(* the hypotheses are satisfiable: for four of the configurations above the
+   placement hypotheses are proved and the theorems applied, so the results
+   hold under EVERY schedule (an encoder with its worst-case window, a decoder
+   with its capacity window, the packed accessors with the slot ranges of C09,
+   bitstream Sets with the bit ranges of C11) *)
+Example C17_group_encode_example_all_schedules : forall sched,
+  let ps := [mk_io 0 3 100; mk_io 1 2 200] in
+  let ths := map (fun p => prog1 (io_src p) (io_n p) (io_dst p) group_enc_fn) ps in
+  let c := crun sched (mem_list [7; 300; 70000], ths) in
+  ~ races (snd c) /\
+  (forall r, nth_error (snd c) 0 = Some (Ret r) -> r = [1; 9] /\ fst c 100 = 3 /\ fst c 108 = 0) /\
+  (forall r, nth_error (snd c) 1 = Some (Ret r) -> r = [1; 8] /\ fst c 200 = 2 /\ fst c 206 = 1).
+Proof. exact group_encode_example_all_schedules. Qed.
+
+Example C17_adaptive_decode_example_all_schedules : forall sched,
+  let ps := [(mk_io 0 14 100, 5); (mk_io 0 14 200, 3)] in
+  let ths := map (fun p => prog1 (io_src (fst p)) (io_n (fst p)) (io_dst (fst p)) (adaptive_dec_fn (snd p))) ps in
+  let c := crun sched (mem_list [0; 2; 232; 3; 1; 2; 1; 4; 1; 2; 3; 8; 27; 2], ths) in
+  ~ races (snd c) /\
+  (forall r, nth_error (snd c) 0 = Some (Ret r) -> r = [1; 5] /\ fst c 100 = 1000 /\ fst c 104 = 70000) /\
+  (forall r, nth_error (snd c) 1 = Some (Ret r) -> r = [1; 3] /\ fst c 202 = 1003).
+Proof. exact adaptive_decode_example_all_schedules. Qed.
+
+Example C17_packed_example_all_schedules : forall sched,
+  let c12 := mk_pcfg 12 8 None 16 32 true in
+  let ps := [(mk_pcall 10 c12 0, PSet 2748); (mk_pcall 10 c12 2, PIncr 5%Z); (mk_pcall 10 c12 4, PHalf)] in
+  let ths := map (fun p => slots_prog (pc_base (fst p)) (pc_slots (fst p))
+                             (pop_fn (pc_cfg (fst p)) (pc_i (fst p)) (snd p))) ps in
+  let c := crun sched (mem_list (repeat 0 10%nat ++ [17; 34; 51; 68; 85; 102; 119; 136]), ths) in
+  ~ races (snd c) /\
+  (forall r, nth_error (snd c) 0 = Some (Ret r) -> r = [] /\ fst c 10 = 188 /\ fst c 11 = 42) /\
+  (forall r, nth_error (snd c) 1 = Some (Ret r) -> r = [] /\ fst c 13 = 73 /\ fst c 14 = 85) /\
+  (forall r, nth_error (snd c) 2 = Some (Ret r) -> r = [] /\ fst c 16 = 59 /\ fst c 17 = 132).
+Proof. exact packed_example_all_schedules. Qed.
+
+Example C17_bitstream_example_all_schedules : forall sched,
+  let ps := [mk_bcall 10 8 64 4 8 171; mk_bcall 10 8 64 20 3 5] in
+  let ths := map (fun p => slots_prog (bc_base p) (bc_words p)
+                             (bitstream_set_fn (bc_W p) (bc_V p) (bc_off p) (bc_n p) (bc_v p))) ps in
+  let c := crun sched (mem_list (repeat 0 10%nat ++ [255; 255; 255; 255; 255]), ths) in
+  ~ races (snd c) /\
+  (forall r, nth_error (snd c) 0 = Some (Ret r) -> r = [1] /\ fst c 10 = 250 /\ fst c 11 = 191) /\
+  (forall r, nth_error (snd c) 1 = Some (Ret r) -> r = [1] /\ fst c 12 = 251).
+Proof. exact bitstream_example_all_schedules. Qed.
